@@ -18,7 +18,7 @@ CPU_BUDGET = 150
 REQUIRED_OBS = ["trees_round_tripped", "entries_compared", "modes_compared", "mtimes_compared"]
 RULE = ("generated trees (depth <= 5; empty and non-empty directories; files of size 0..; relative symlinks to files and directories, sideways and "
         "upward-but-inside; Unicode names; file modes 0o400..0o777, directory modes 0o500..0o777; mtimes 1970..2100 with 100 ns fractions) x entry point "
-        "{writeall+extractall, pack_7zarchive+unpack_7zarchive} x arcname None/given x source absolute/relative/'.' from inside the tree/absolute with the working directory inside "
+        "{writeall+extractall, pack_7zarchive+unpack_7zarchive} x arcname None/given x source absolute/relative/'../src' from a sibling directory/'.' from inside the tree/absolute with the working directory inside "
         "the tree x extraction into a given directory / into the current directory x link targets also spelled './t', 't/', 'a//t' x dereference off/on x default filters / "
         "password; the tree written into a fresh archive, after a member given as data, or appended to an existing archive. Half of the cases run as uid 65534 (root ignores permission bits). Oracle: lstat/readlink/read walk of the extracted tree vs the source: "
         "path set, kinds, bytes, link text, S_IMODE of files and directories, mtime within 5 microseconds. Cell = (entry point, arcname, source form, "
@@ -37,8 +37,16 @@ def cases(rng, tier):
         if deref and (T.has_dir_link_cycle(tree) or not T.deref_image_is_finite(tree)):
             deref = False  # an upward or mutually recursive directory link has no finite dereferenced image
         out.append({"tree": tree, "entry": "shutil" if rng.random() < 0.15 and not deref else rng.choice(["writeall", "writeall", "writeall", "append", "after-writestr"]), "arcname": rng.choice([None, None, "arc", "deep/arc name"]),
-                    "source": rng.choice(["abs", "rel", "rel", "dot", "cwd-inside"]), "extract": rng.choice(["dst", "dst", "cwd"]), "deref": deref, "password": rng.choice([None, None, None, "pässwörd"]),
+                    "source": rng.choice(["abs", "rel", "rel", "dot", "cwd-inside", "dotdot"]), "extract": rng.choice(["dst", "dst", "cwd"]), "deref": deref, "password": rng.choice([None, None, None, "pässwörd"]),
                     "uid": 65534 if i % 2 else 0, "chain": (G.chain(rng, aes=False) if rng.random() < 0.3 else None)})
+        if not deref:
+            _add_link_through_link(rng, tree)
+    # the hunter's own tree (fourth hunt): a link spelled through another link, archived from outside and from inside
+    for source in ("rel", "dot", "dotdot"):
+        t = [{"path": "d1", "kind": "dir", "mode": 0o755, "mtime_ns": 1_500_000_000_000_000_000}, {"path": "d1/d2", "kind": "dir", "mode": 0o755, "mtime_ns": 1_500_000_000_000_000_000},
+             {"path": "x", "kind": "file", "mode": 0o644, "mtime_ns": 1_500_000_000_000_000_000, "content": {"len": 40, "tex": "text", "seed": 3}},
+             {"path": "l", "kind": "link", "target": "d1/d2"}, {"path": "m", "kind": "link", "target": "l/../../x"}]
+        out.append({"tree": t, "entry": "writeall", "arcname": None, "source": source, "extract": "dst", "deref": False, "password": None, "uid": 0, "chain": None})
     import re
 
     for c in out:
@@ -47,6 +55,32 @@ def cases(rng, tier):
         if c["source"] == "dot" and any(re.match(r"^([A-Za-z]:|\\\\)", e["path"]) for e in c["tree"]):
             c["source"] = "rel"
     return out
+
+
+def _add_link_through_link(rng, tree):
+    """With a link L to a directory D of the tree and a file x: one more link, next to L, whose target goes *through* L and climbs
+    back from D to the root of the tree: 'L/../(depth of D times)/x'. It exists inside the tree; collapsing '..' in its spelling
+    would put it elsewhere (found by a bug hunt)."""
+    import posixpath
+
+    dirs = {e["path"] for e in tree if e["kind"] == "dir"}
+    files = [e["path"] for e in tree if e["kind"] == "file"]
+    paths = {e["path"] for e in tree}
+    cands = []
+    for e in tree:
+        if e["kind"] == "link" and not e["target"].startswith("/"):
+            res = posixpath.normpath(posixpath.join(posixpath.dirname(e["path"]), e["target"]))
+            if res in dirs and ".." not in res.split("/") and ".." not in e["target"].split("/"):
+                # every component of the link's own directory must be a real directory (not itself reached through a link)
+                cands.append((e, res))
+    if not cands or not files or rng.random() > 0.5:
+        return
+    e, res = rng.choice(cands)
+    x = rng.choice(files)
+    name = posixpath.join(posixpath.dirname(e["path"]), "via-" + posixpath.basename(e["path"]))
+    if name in paths:
+        return
+    tree.append({"path": name, "kind": "link", "target": posixpath.basename(e["path"]) + "/" + "../" * len(res.split("/")) + x})
 
 
 def worker_init():
@@ -125,6 +159,11 @@ def _body(case, d):
     try:
         os.chdir(src_parent)
         srcarg = src if case["source"] in ("abs", "cwd-inside") else "src"
+        if case["source"] == "dotdot" and case["entry"] != "shutil":
+            # the tree lies beside the working directory
+            os.mkdir(os.path.join(src_parent, "elsewhere"))
+            os.chdir(os.path.join(src_parent, "elsewhere"))
+            srcarg = "../src"
         if case["source"] == "dot" and case["entry"] != "shutil":
             # from inside the tree: the tree is '.', its entries have no common top (unless an arcname is given)
             os.chdir(src)
